@@ -27,6 +27,11 @@ void slk_push_accept(int ok);
 void slk_push_conn(long err);
 size_t slk_reg_dump(char* buf, size_t cap);  // "c1:8209,l0:8209" sorted by name, "-" when empty
 int  slk_evfd_readable(void);
+// real-kernel rounds (interposition off): hooks for the two-thread scenarios of the `mt` operation
+void slk_thread_stall(int mode, int usec);   // calling thread: 1 = sleep usec after its next write to the event descriptor, 2 = before it, 0 = off
+long slk_wait_entries(void);                 // number of epoll_wait calls entered so far (also while interposition is off)
+void slk_lookup_release(int ok);             // let one blocked getaddrinfo("verif.test") return (ok: 127.0.0.1, else EAI_NONAME)
+long slk_lookups_done(void);                 // number of such lookups that have returned
 #ifdef __cplusplus
 }
 #endif
